@@ -155,6 +155,8 @@ class Socket(base_socket.BaseSocket):
         def websocket_wait():
             data = ws.wait()
             if data and len(data) > self.server.max_http_buffer_size:
+                # if this happens during an upgrade, the upgrade is aborted
+                self.upgrading = False
                 raise ValueError('packet is too large')
             return data
 
